@@ -91,6 +91,10 @@ impl NamespaceSecret {
     #[verifier::external_body]
     pub fn id(&self) -> (r: NamespaceId) ensures r == self.spec_id() { unimplemented!() }
 }
+impl Clone for NamespaceSecret {
+    #[verifier::external_body]
+    fn clone(&self) -> (r: NamespaceSecret) ensures r == *self { unimplemented!() }
+}
 #[verifier::external_body]
 pub struct Author { _p: u8 }
 impl Author {
